@@ -20,7 +20,8 @@ EXTENDS Type2, Json
 
 CONSTANTS MaxBlocks,      \* forms family: block sequences up to this length (profile 1, cff)
           MaxBlocksAll,   \* ... up to this length for every profile and kind
-          ExtraKinds,     \* block kinds of the sequences one block longer than the two bounds above
+          ExtraKinds,     \* block kinds of the sequences one block longer than MaxBlocks (profile 1, cff)
+          ExtraKindsAll,  \* ... one block longer than MaxBlocksAll (every profile and kind)
           BigCounts       \* subroutine counts for the bias family
 
 VARIABLES ph, cs, m
@@ -58,7 +59,7 @@ V(p, i, j) ==
 
 \* Blocks: one or two segments with the alignments the specialised operators need
 BlockKinds == {"Lg", "Lh", "Lv", "Cg", "Chh", "Chv", "Cvh", "Cvv", "Cxh", "Cxv", "Chx", "Cvx",
-               "Fh", "Fh1", "F1x", "F1y"}
+               "Fh", "Fh1", "F1x", "F1y", "F1e"}
 Blk(kind, p, i) ==
   LET a(j) == V(p, i, j)
       X(j) == 2 * Abs(V(p, i, j)) IN
@@ -79,6 +80,9 @@ Blk(kind, p, i) ==
                          SegC(a(6), 0, a(1), a(3), a(2), 0 - (a(2) + a(4) + a(3)))>>
     [] kind = "F1x" -> <<SegC(X(1), a(2), X(3), a(4), X(5), a(6)),
                          SegC(X(2), a(1), X(4), a(3), X(6), 0 - (a(2) + a(4) + a(6) + a(1) + a(3)))>>
+    \* flex1 with |dx| = |dy| over the first five deltas: the last argument is the vertical one
+    [] kind = "F1e" -> <<SegC(a(1), a(2), a(3), a(4), a(5), a(5)),
+                         SegC(a(2), a(1), a(4), a(3), 0 - (a(1) + a(3) + a(5) + a(2) + a(4)), a(6))>>
     [] kind = "F1y" -> <<SegC(a(2), X(1), a(4), X(3), a(6), X(5)),
                          SegC(a(1), X(2), a(3), X(4), 0 - (a(2) + a(4) + a(6) + a(1) + a(3)), X(6))>>
 
@@ -224,17 +228,24 @@ FormsCases(kind, p, kinds) ==
 WrapPaths ==
   [a |-> <<[mv |-> <<V(1, 0, 1), V(1, 0, 2)>>, segs |-> Blk("Lg", 1, 1) \o Blk("Chv", 1, 2) \o Blk("Lh", 1, 3)],
            [mv |-> <<V(2, 5, 1), V(2, 5, 2)>>, segs |-> Blk("Cvx", 2, 6) \o Blk("Lv", 4, 7)]>>,
-   h |-> <<[mv |-> <<V(1, 0, 1), 0>>, segs |-> Blk("Lh", 3, 1) \o Blk("Lv", 3, 2) \o Blk("Cxh", 1, 3)]>>,
+   h |-> <<[mv |-> <<V(1, 0, 1), 0>>, segs |-> Blk("Lh", 3, 1) \o Blk("Lv", 3, 2) \o Blk("Cxh", 1, 3)],
+           [mv |-> <<V(2, 5, 1), 0>>, segs |-> Blk("Lv", 1, 6) \o Blk("Cg", 1, 7)]>>,
    v |-> <<[mv |-> <<0, V(4, 0, 2)>>, segs |-> Blk("Fh1", 1, 1)],
            [mv |-> <<0, V(1, 5, 2)>>, segs |-> Blk("Lg", 1, 6)]>>]
 
 \* hint prologues: [pre |-> tokens before the first move, mid |-> tokens between the contours' operators]
 Stem(i) == <<N((10 * i) * ONE), N((5 + i) * ONE)>>
 StemsTok(i, n) == Cat(LAMBDA j : Stem(i + j), n)
-HintKinds == {"none", "hs", "hsvs", "hm2", "hm8", "hm9", "hmmid", "cm", "hm17"}
+HintKinds == {"none", "hs", "vs", "hsvs", "hm0", "cm0", "hm2", "hm8", "hm9", "hmmid", "cm", "hm17"}
 Hints(h) ==
   CASE h = "none"  -> [pre |-> <<>>, mid |-> <<>>]
     [] h = "hs"    -> [pre |-> StemsTok(0, 1) \o <<O("hstem")>>, mid |-> <<>>]
+    [] h = "vs"    -> [pre |-> StemsTok(0, 2) \o <<O("vstem")>>, mid |-> <<>>]
+    \* no stem operator at all: hintmask / cntrmask is the first stack-clearing operator (a width sits below
+    \* its implicit vstem arguments); three stems: one mask byte, nine stems: two
+    [] h = "hm0"   -> [pre |-> StemsTok(0, 3) \o <<O("hintmask"), MB(<<160>>)>>, mid |-> <<O("hintmask"), MB(<<64>>)>>]
+    [] h = "cm0"   -> [pre |-> StemsTok(0, 9) \o <<O("cntrmask"), MB(<<255, 128>>)>> \o <<O("hintmask"), MB(<<1, 0>>)>>,
+                       mid |-> <<>>]
     [] h = "hsvs"  -> [pre |-> StemsTok(0, 2) \o <<O("hstem")>> \o StemsTok(3, 1) \o <<O("vstem")>>, mid |-> <<>>]
     \* hstemhm, then the vstem arguments left on the stack for hintmask: 2 stems, 1 mask byte
     [] h = "hm2"   -> [pre |-> StemsTok(0, 1) \o <<O("hstemhm")>> \o StemsTok(3, 1) \o <<O("hintmask"), MB(<<14>>)>>,
@@ -260,7 +271,11 @@ FactorKinds == {"none", "Lop", "Gop", "Lopr", "Gargs", "nest2", "nest3", "deep10
 WrapChunks(kind, w, mf, h, path) ==
   LET hp == Hints(h)
       wtok == IF w THEN <<N(77 * ONE)>> ELSE <<>>
-      mv(c) == IF c = 1 THEN mf ELSE App("rmoveto", path[c].mv)
+      \* later moves (relative to the current point) in their most specific form
+      mv(c) == IF c = 1 THEN mf
+               ELSE IF path[c].mv[1] = 0 THEN App("vmoveto", <<path[c].mv[2]>>)
+               ELSE IF path[c].mv[2] = 0 THEN App("hmoveto", <<path[c].mv[1]>>)
+               ELSE App("rmoveto", path[c].mv)
       body(c) == AppsTokens(Compact(path[c].segs)) IN
   [pre |-> IF hp.pre # <<>> THEN wtok \o hp.pre ELSE <<>>,
    mv1 |-> IF hp.pre # <<>> THEN mv(1) ELSE wtok \o mv(1),
@@ -327,7 +342,7 @@ WrapCases(kind, pname, w, h, fk) ==
 
 \* ---- family "bias": subroutine counts at the bias thresholds, first / last / neighbouring index
 BiasCases(kind, cnt, global) ==
-  LET path == WrapPaths["h"]
+  LET path == <<WrapPaths["h"][1]>>
       body == AppsTokens(Compact(path[1].segs))
       idxs == {i \in {0, 1, 106, 107, 108, cnt - 2, cnt - 1} : i >= 0 /\ i < cnt} IN
   { Case("bias", "", kind,
@@ -382,17 +397,24 @@ BlendTuples2 == {<<0, 0>>, <<8192, 16384>>, <<8192, 8192>>, <<16384, -8192>>, <<
 Blended(defs, k, seed) ==
   Nums(defs) \o Cat(LAMBDA i : [j \in 1 .. k |-> N(Sgn(i + j) * (3 * i + 5 * j + seed) * ONE)], Len(defs))
   \o <<N(Len(defs) * ONE), O("blend")>>
-BlendCases(regions, tuple, vsmode) ==
+BlendCases(regions, tuple, vsmode, insub) ==
   LET ivd == IF vsmode = "none0" THEN 0 ELSE 1
       k == Len(regions[ivd + 1])
       pre == IF vsmode = "op1" THEN <<N(ONE), O("vsindex")>> ELSE <<>>
-      prog == pre \o Blended(<<40 * ONE, 0 - 25 * ONE>>, k, 1) \o <<O("rmoveto")>>
+      first == Blended(<<40 * ONE, 0 - 25 * ONE>>, k, 1) \o <<O("rmoveto")>>
+      \* insub: the first blends and the move live in a global subroutine (no return in CFF2),
+      \* a later pair of blends in a local one that leaves its results on the stack
+      pair == Blended(<<14 * ONE>>, k, 5) \o Blended(<<0 - 6 * ONE>>, k, 6)
+      prog == pre \o (IF insub THEN CallTok(1, 3, TRUE) ELSE first)
               \o <<N(30 * ONE)>> \o Blended(<<0 - 12 * ONE>>, k, 2) \o <<O("rlineto")>>        \* blend of the top operand only
               \o Blended(<<9 * ONE, 17 * ONE, 0 - 8 * ONE, 21 * ONE, 33 * ONE, 0 - 5 * ONE>>, k, 3) \o <<O("rrcurveto")>>
               \o Blended(<<60 * ONE>>, k, 4) \o <<O("hmoveto")>>
-              \o Blended(<<14 * ONE>>, k, 5) \o Blended(<<0 - 6 * ONE>>, k, 6) \o <<O("hlineto")>>
+              \o (IF insub THEN CallTok(0, 2, FALSE) ELSE pair) \o <<O("hlineto")>>
       var == [regions |-> regions, tuple |-> tuple, dvs |-> IF vsmode = "priv1" THEN 1 ELSE 0] IN
-  { Case("blend", vsmode, "cff2", prog, <<>>, <<>>, 0, 0, <<>>, "iso", var, <<>>, TRUE) }
+  { Case("blend", vsmode \o (IF insub THEN "+subr" ELSE ""), "cff2", prog,
+         IF insub THEN <<[i |-> 0, t |-> pair]>> ELSE <<>>,
+         IF insub THEN <<[i |-> 1, t |-> first]>> ELSE <<>>,
+         IF insub THEN 2 ELSE 0, IF insub THEN 3 ELSE 0, <<>>, "iso", var, <<>>, TRUE) }
 
 \* ---- family "misc": glyphs without a path, extreme numbers
 MiscCases ==
@@ -437,7 +459,7 @@ Selections ==
            k \in {"cff", "cff2"}, p \in 1 .. 4, ks \in BlockSeqs(MaxBlocksAll)}
   \cup {[fam |-> "forms", kind |-> "cff", p |-> 1, ks |-> ks] : ks \in SeqsOfLen(ExtraKinds, MaxBlocks + 1)}
   \cup {[fam |-> "forms", kind |-> k, p |-> p, ks |-> ks] :
-           k \in {"cff", "cff2"}, p \in 1 .. 4, ks \in SeqsOfLen(ExtraKinds, MaxBlocksAll + 1)}
+           k \in {"cff", "cff2"}, p \in 1 .. 4, ks \in SeqsOfLen(ExtraKindsAll, MaxBlocksAll + 1)}
   \cup {[fam |-> "wrap", kind |-> k, pn |-> pn, w |-> w, h |-> h, fk |-> fk] :
            k \in Kinds, pn \in {"a", "h", "v"}, w \in BOOLEAN, h \in HintKinds, fk \in FactorKinds}
   \cup {[fam |-> "bias", kind |-> k, cnt |-> c, g |-> g] :
@@ -445,10 +467,10 @@ Selections ==
   \cup {[fam |-> "seac", codes |-> cd, charset |-> chs, ow |-> ow, cw |-> cw, chint |-> chint] :
            cd \in {<<65, 194>>, <<245, 194>>, <<105, 251>>}, chs \in {"iso", "custom"},
            ow \in BOOLEAN, cw \in BOOLEAN, chint \in {0, 1, 5}}
-  \cup {[fam |-> "blend", regions |-> Reg1, tuple |-> t, vs |-> vs] :
-           t \in BlendTuples1, vs \in {"none0", "priv1", "op1"}}
-  \cup {[fam |-> "blend", regions |-> Reg2, tuple |-> t, vs |-> vs] :
-           t \in BlendTuples2, vs \in {"none0", "priv1", "op1"}}
+  \cup {[fam |-> "blend", regions |-> Reg1, tuple |-> t, vs |-> vs, insub |-> b] :
+           t \in BlendTuples1, vs \in {"none0", "priv1", "op1"}, b \in BOOLEAN}
+  \cup {[fam |-> "blend", regions |-> Reg2, tuple |-> t, vs |-> vs, insub |-> b] :
+           t \in BlendTuples2, vs \in {"none0", "priv1", "op1"}, b \in BOOLEAN}
   \cup {[fam |-> "misc"]}
 
 CasesOf(s) ==
@@ -456,7 +478,7 @@ CasesOf(s) ==
     [] s.fam = "wrap"  -> WrapCases(s.kind, s.pn, s.w, s.h, s.fk)
     [] s.fam = "bias"  -> BiasCases(s.kind, s.cnt, s.g)
     [] s.fam = "seac"  -> SeacCases(s.codes, s.charset, s.ow, s.cw, s.chint)
-    [] s.fam = "blend" -> BlendCases(s.regions, s.tuple, s.vs)
+    [] s.fam = "blend" -> BlendCases(s.regions, s.tuple, s.vs, s.insub)
     [] s.fam = "misc"  -> MiscCases
 
 ---------------------------------------------------------------------------
@@ -522,10 +544,14 @@ EmitCase ==
                                         width |-> m.width # <<>>],
                              exp |-> Outcome(m)])>>)
 
+\* the bias thresholds of TN5176 section 16 (checked by TLC before the exploration starts)
+ASSUME /\ Bias(0) = 107 /\ Bias(1239) = 107 /\ Bias(1240) = 1131
+       /\ Bias(33899) = 1131 /\ Bias(33900) = 32768 /\ Bias(65535) = 32768
+
 NoKinds     == {}
 \* the blocks whose runs grow new argument patterns with length: alternating h/v lines and curves, the
 \* odd final argument of hvcurveto / vhcurveto, line/curve splits
-LongKinds   == {"Lh", "Lv", "Lg", "Chv", "Cvh", "Chx", "Cvx"}
+LongKinds   == {"Lh", "Lv", "Lg", "Cg", "Chv", "Cvh", "Chx", "Cvx"}
 BigQuick    == {33899, 33900}
 BigThorough == {33899, 33900, 33901, 65535}
 =============================================================================
